@@ -59,7 +59,7 @@ PROPS = {
                          "x690 Integer.encode_raw/decode_raw round trip: bounded stand-in (enumeration), not proved"],
     },
     "C18": {
-        "units": [config.units, seam.units], "level": "proof", "design_ref": "7.18",
+        "units": [config.units, seam.units, wire_community.units_c05], "level": "proof", "design_ref": "7.18",
         "technique": VC + "configure, reconfigure (an @contextmanager function executed with an ARBITRARY block at its yield: "
                      "the block may reconfigure permanently and may raise), the transport handler closure and _send; "
                      "object identity of config/mpm is exact (heap objects are concrete per path)",
